@@ -1151,11 +1151,17 @@ impl<'a> GeneratorState<'a> {
 
     fn generate_strobe_statement(&mut self, expr: &Expr, pos: usize) -> Result<(), Error> {
         match expr {
-            Expr::Identifier(name, _) => {
+            Expr::Identifier(name, sub) => {
                 if name == "X" || name == "Y" {
                     return Err(self
                         .compiler_state
                         .syntax_error("Strobe only works on memory pointers", pos));
+                }
+                if !matches!(**sub, Expr::Nothing) {
+                    // The subscript would be ignored and another address strobed
+                    return Err(self
+                        .compiler_state
+                        .syntax_error("No subscript allowed in strobe", pos));
                 }
                 self.check_has_value(name, pos)?;
                 let v = self.compiler_state.get_variable(name);
@@ -1270,6 +1276,13 @@ impl<'a> GeneratorState<'a> {
         pos: usize,
         load: bool,
     ) -> Result<(), Error> {
+        if let ExprType::Nothing = expr {
+            // A call of a void function, for instance
+            return Err(self.compiler_state.syntax_error(
+                if load { "load needs a value" } else { "store needs a memory location" },
+                pos,
+            ));
+        }
         self.protected = true;
         match expr {
             ExprType::X => {
